@@ -17,7 +17,7 @@ func marr(xs ...MV) MV { return MV{T: "arr", A: xs} }
 var mnil = MV{T: "nil"}
 
 var falsyVals = []MV{mb(false), mnil, mi(0), mf("0.0"), ms("")}
-var truthyVals = []MV{mb(true), mi(1), mi(-1), mf("0.5"), ms("a"), ms("0"), ms("false"), marr(), marr(mi(0)), {T: "obj"}, mi(9223372036854775807)}
+var truthyVals = []MV{mb(true), mi(1), mi(-1), mf("0.5"), mf("0.0000000001"), mf("0.000000000000000001"), ms("a"), ms("0"), ms("false"), marr(), marr(mi(0)), {T: "obj"}, mi(9223372036854775807)}
 
 func lit(v MV) MX     { return MX{K: "lit", V: v} }
 func rd(n string) MX  { return MX{K: "var", N: n} }
@@ -27,6 +27,7 @@ func txt(s string) *MS { return &MS{K: "text", S: s} }
 var ctrlData = map[string]MV{
 	"dt": mb(true), "df": mb(false), "dz": mi(0), "dn": mnil, "de": ms(""), "ds": ms("s"), "d5": mi(5),
 	"da": marr(mi(1), mi(2), mi(3)), "dea": marr(), "dsa": marr(ms("p"), ms("q")),
+	"dtf": mf("0.000000000001"), "dnf": mf("-0.00000000000000000001"),
 }
 
 // a condition with the given truth value, drawn from literals and data variables
@@ -144,6 +145,17 @@ func casesC02(g *Gen) []*Case {
 			c.Oracle = expectOut(want)
 			cs = append(cs, c)
 		}
+	}
+	// tiny and negative non-zero floats from the data are truthy, in every truthiness site
+	for _, n := range []string{"dtf", "dnf"} {
+		x := rd(n)
+		add("truthy_tiny_float", []*MS{txt("a"), {K: "if", Conds: []MX{x}, Bods: [][]*MS{{txt("T")}}, HasEl: true, Else: []*MS{txt("F")}}, txt("z")})
+		add("truthy_tiny_float", []*MS{{K: "if", Conds: []MX{lit(mb(false)), x}, Bods: [][]*MS{{txt("A")}, {txt("T")}}, HasEl: true, Else: []*MS{txt("F")}}})
+		add("truthy_tiny_float", []*MS{{K: "each", N: "q", X: rd("da"), Body: []*MS{{K: "print", X: rd("q")}, {K: "breakIf", X: x}, txt(",")}}})
+		add("truthy_tiny_float", []*MS{{K: "each", N: "q", X: rd("da"), Body: []*MS{{K: "print", X: rd("q")}, {K: "continueIf", X: x}, txt(",")}}})
+		c := evalCase("truthy_tiny_float", "{{ "+n+" ? \"T\" : \"F\" }}", miniData(ctrlData))
+		c.Oracle = expectOut("T")
+		cs = append(cs, c)
 	}
 	// text that directly follows @else / @end is unaffected, whatever letter it starts with
 	for _, t := range []string{"i", "ix", "invalid", "I", "If", "in", "e", "end", "(x)", "f", "if ", "1"} {
@@ -474,6 +486,34 @@ func casesC04(g *Gen) []*Case {
 	cs = append(cs, miniCase("vanish", []*MS{{K: "for", N: "x", From: 0, To: 1, Up: true, Body: []*MS{txt("in")}}, {K: "print", X: rd("x")}}, nil))
 	cs = append(cs, miniCase("vanish", []*MS{{K: "if", Conds: []MX{lit(mb(true))}, Bods: [][]*MS{{{K: "assign", N: "x", X: lit(mi(1))}}}}, {K: "print", X: rd("x")}}, nil))
 	cs = append(cs, miniCase("vanish", []*MS{{K: "each", N: "x", X: lit(marr(mi(1))), Body: []*MS{txt("in")}}, {K: "print", X: MX{K: "loop", N: "index"}}}, nil))
+	// an assignment that follows a nested construct inside a branch / a loop body is still local to it,
+	// whether or not the name is visible outside
+	nested := []*MS{
+		{K: "if", Conds: []MX{lit(mb(true))}, Bods: [][]*MS{{txt("n")}}},
+		{K: "if", Conds: []MX{lit(mb(false))}, Bods: [][]*MS{{txt("n")}}},
+		{K: "each", N: "q", X: lit(marr(mi(1))), Body: []*MS{txt("n")}},
+		{K: "for", N: "q", From: 0, To: 1, Up: true, Body: []*MS{txt("n")}},
+	}
+	for _, nd := range nested {
+		for _, pre := range []MV{mnil, mi(5)} {
+			inner := []*MS{txt("("), nd, {K: "assign", N: "x", X: lit(mi(1))}, {K: "print", X: rd("x")}, txt(")")}
+			var outer []*MS
+			if pre.T != "nil" {
+				outer = append(outer, &MS{K: "assign", N: "x", X: lit(pre)})
+			}
+			shapes := [][]*MS{
+				{{K: "if", Conds: []MX{lit(mb(true))}, Bods: [][]*MS{inner}}},
+				{{K: "if", Conds: []MX{lit(mb(false)), lit(mb(true))}, Bods: [][]*MS{{txt("a")}, inner}}},
+				{{K: "if", Conds: []MX{lit(mb(false))}, Bods: [][]*MS{{txt("a")}}, HasEl: true, Else: inner}},
+				{{K: "each", N: "w", X: lit(marr(mi(1), mi(2))), Body: inner}},
+			}
+			for _, sh := range shapes {
+				prog := append(append([]*MS{}, outer...), sh...)
+				prog = append(prog, txt("|"), &MS{K: "print", X: rd("x")})
+				cs = append(cs, miniCase("assign_after_nested", prog, nil))
+			}
+		}
+	}
 	// loop is reserved
 	cs = append(cs, miniCase("loop_reserved", []*MS{{K: "assign", N: "loop", X: lit(mi(1))}}, nil))
 	cs = append(cs, miniCase("loop_reserved", []*MS{{K: "each", N: "loop", X: lit(marr(mi(1))), Body: []*MS{txt("x")}}}, nil))
